@@ -45,6 +45,15 @@ func genC06(level int) []*CacheScen {
 				add(&CacheScen{Rel: rel, NKeys: 2, Init: []int{ini, IExpired}, Table: TPlain, Warm: true, Threads: [][]CIn{{cDelExp}, {cDelExp}}})
 				add(&CacheScen{Rel: rel, NKeys: 2, Init: []int{ini, IExpired}, Table: TPlain, Warm: true, Threads: [][]CIn{{cDelExp}, {con(cDelete, 0), cDelExp}}})
 			}
+			// an entry is stored and expires (the clock moves) while another call is in flight: the cleanup pass
+			// that starts afterwards must remove it whatever else is running (checked by the quiescent Count)
+			for _, x := range []CIn{cDelExp, con(cGet, 0), con(cDelete, 0), cRange, con(cGoS, 1)} {
+				for _, ini2 := range []int{ini} {
+					for _, rel := range []KeyRel{RelSS, RelDD} {
+						add(&CacheScen{Rel: rel, NKeys: 2, Init: []int{ini2, IAbsent}, Table: TPlain, Threads: [][]CIn{{x}, {con(CIn{Op: CSet, D: 2}, 1), {Op: CAdvance, D: 3}, cDelExp}}})
+					}
+				}
+			}
 			// two expired keys in one bucket, two cleanup passes
 			add(&CacheScen{Rel: RelSS, NKeys: 2, Init: []int{ini, IExpired}, Table: TPlain, Threads: [][]CIn{{cDelExp}, {cDelExp}}})
 			if level >= 1 {
@@ -140,6 +149,12 @@ func genC08Cache(level int) []*CacheScen {
 		}
 		for _, b := range []CIn{cDelExp, cDelete, cSet, cClear} {
 			add(&CacheScen{Rel: RelDD, NKeys: 2, Init: []int{IAbsent, IExpired}, Table: TGrowArmed, Threads: [][]CIn{{con(cSet, 0)}, {con(b, 1)}}})
+		}
+		// Count right after a cleanup pass that started after an entry expired, whatever else was running
+		for _, x := range []CIn{cDelExp, con(cGet, 0), con(cDelete, 0), cClear} {
+			for _, ini := range []int{IExpired, ILive} {
+				add(&CacheScen{Rel: RelSS, NKeys: 2, Init: []int{ini, IAbsent}, Table: TPlain, Threads: [][]CIn{{x}, {con(CIn{Op: CSet, D: 2}, 1), {Op: CAdvance, D: 3}, cDelExp}}})
+			}
 		}
 	}
 	return out
